@@ -323,7 +323,8 @@ def kvGet (k : String) (ws : List String) : Option String :=
 
 /-! ### C18: acceptor cases
 
-`case <name> kind=acc max=<n|default> tmo=<ms|default>`; ops `ready`, `call <r|o> <r13|r12|o13|o12>`,
+`case <name> kind=acc max=<n|default> tmo=<ms|default>`; ops `ready [w]` (readiness asked by task `w` = 0..2,
+distinct wakers; `r=<mask>`: bit `w` set = task `w` has been woken), `call <r|o> <r13|r12|o13|o12>`,
 `poll k`, `drop k`, `cflight k full|part|rest`, `garbage k <kind>`, `close k`, `advance ms`, `run ms`,
 `fnew` / `fset f ms` / `fclone f` / `fsvc f` (acceptor factories of this thread: `Acceptor::new`,
 `set_handshake_timeout`, `clone`, `ServiceFactory::new_service`), `call <r|o> <cli> s` (through service `s`),
@@ -360,6 +361,10 @@ def outcomeStr : Outcome → String
 
 def b01 (b : Bool) : String := if b then "1" else "0"
 
+/-- which readiness tasks have been woken: bit `w` for task `w` (tasks 0..2) -/
+def rMask (s : Svc) : String :=
+  toString ((if s.wokenW 0 then 1 else 0) + (if s.wokenW 1 then 2 else 0) + (if s.wokenW 2 then 4 else 0))
+
 def alive (c : AccCase) (k : Nat) : Bool := k < c.conns.size && (c.svc.futs k).isAlive
 
 def deadline (c : AccCase) (k : Nat) : Nat :=
@@ -380,7 +385,8 @@ def pollOne (c : AccCase) (k : Nat) : AccCase × Option Outcome :=
 
 def wokenList (c : AccCase) : String :=
   let ks := (List.range c.conns.size).filter fun k => c.alive k && c.conns[k]!.woken
-  let xs := ks.map toString ++ (if c.svc.woken then ["r"] else [])
+  let xs := ks.map toString ++ (if c.svc.wokenW 0 then ["r"] else []) ++ (if c.svc.wokenW 1 then ["r1"] else [])
+    ++ (if c.svc.wokenW 2 then ["r2"] else [])
   "[" ++ ",".intercalate xs ++ "]"
 
 /-- timers: a parked future whose deadline lies in `(old, new]` is woken -/
@@ -413,6 +419,13 @@ def step (c : AccCase) (ws : List String) : AccCase × String :=
   | ["ready"] =>
     let (svc', a) := c.svc.pollReady
     ({ c with svc := svc' }, if a then "ready" else "pending")
+  | ["ready", w] =>
+    -- readiness asked by task `w` (its own waker)
+    match (canonNat w).filter (· < 3) with
+    | some w =>
+      let (svc', a) := c.svc.pollReadyW w
+      ({ c with svc := svc' }, if a then "ready" else "pending")
+    | none => (c, "bad-op")
   | ["call", lib, cli] =>
     if (lib == "r" || lib == "o") && (cli == "r13" || cli == "r12" || cli == "o13" || cli == "o12") then
       ({ c with svc := c.svc.call c.now, conns := c.conns.push {}, results := c.results.push none, fin := c.fin.push false }, s!"ok {c.conns.size}")
@@ -447,7 +460,7 @@ def step (c : AccCase) (ws : List String) : AccCase × String :=
     | some k =>
       if c.alive k then
         let (c', o) := c.pollOne k
-        (c', s!"{match o with | some r => outcomeStr r | none => "pending"} r={b01 c'.svc.woken}")
+        (c', s!"{match o with | some r => outcomeStr r | none => "pending"} r={rMask c'.svc}")
       else (c, "bad-op")
     | none => (c, "bad-op")
   | ["drop", k] =>
@@ -455,7 +468,7 @@ def step (c : AccCase) (ws : List String) : AccCase × String :=
     | some k =>
       if c.alive k then
         let svc' := c.svc.dropK k
-        ({ c with svc := svc' }, s!"ok r={b01 svc'.woken}")
+        ({ c with svc := svc' }, s!"ok r={rMask svc'}")
       else (c, "bad-op")
     | none => (c, "bad-op")
   | ["cflight", k, mode] =>
@@ -498,7 +511,7 @@ def step (c : AccCase) (ws : List String) : AccCase × String :=
       if ms ≤ 20000 then
         let (c0, d0) := c.sweep []
         let (c', done) := c0.runMs ms d0
-        (c', s!"t={c'.now} done=[{",".intercalate done}] r={b01 c'.svc.woken}")
+        (c', s!"t={c'.now} done=[{",".intercalate done}] r={rMask c'.svc}")
       else (c, "bad-op")
     | none => (c, "bad-op")
   | ["echo", k, n, seed] =>
